@@ -14,3 +14,13 @@ claim("C07", "other", "path-sensitive error-flow analysis over SSA (every fallib
       "Decides the 'reported, never swallowed' clause for every one of the ~116 fallible call sites: on each path where the error may be non-nil it must reach the caller before any publish / Store.size / file-write effect and without looping; plus mark hygiene of failed mutations (E3). This is a structural necessary condition, checked exhaustively over paths; it does not decide that later operations behave as if the failed call had never been made, nor hangs. Two sites (Exist, EvictSomeItems) genuinely drop an error because their signatures have no error result: listed as known findings.",
       "Trusted: go/ssa; io.ReaderAt/WriterAt contract (short transfer => non-nil error); cached nodes are never evicted (justifies the cached re-read idiom).",
       "DESIGN.md §4 C07")
+
+claim("C15", "other", "acquire/release pairing with ownership transfer, path-sensitive over SSA",
+      "Decides the structural pairing clauses on every path of every function: evicted items are released (R1), allocated items end installed or released and replaced cached items are released (R2), getters return only AddRef'd items and never an item with an error (R3), node adoption/free symmetry (R4), internal users of getters release exactly once or hand on (R5), every ItemDecRef releases a reference gkvlite holds (R6, 'never premature'). Necessary conditions of balance, checked exhaustively over paths; reference arithmetic over whole histories and fault paths are not decided. Get(key) genuinely leaks GetItem's reference (known finding, needs an API decision).",
+      "Trusted: go/ssa; ItemAlloc returns an item with one reference; neutral AfterItemRead. One named exception (EvictSomeItems' walk result, dead release path) with its reason in the checker.",
+      "DESIGN.md §4 C15")
+
+claim("C16", "other", "nil-ness dominance check on results of may-return-(nil,nil) getters",
+      "Narrow: decides only that Len and the block visits (and every other internal user of GetItem/MinItem/MaxItem/walk) test the item result against nil before any field access, i.e. the empty-collection clause. The 'exactly once at every size and block permutation' clause depends on block arithmetic over run-time counts and is not decided (DESIGN §5 D5 documents a duplicate visit in VisitItemsRandom that no sound static rule here sees).",
+      "Trusted: go/ssa dominance; the may-return-(nil,nil) summary is computed from the getters' own returns.",
+      "DESIGN.md §4 C16")
